@@ -11,6 +11,7 @@ import (
 	"runtime/debug"
 	"sort"
 	"strings"
+	"time"
 
 	pb "github.com/ipfs/boxo/ipld/unixfs/pb"
 	"github.com/ipfs/go-cid"
@@ -482,7 +483,7 @@ func concurrentBuilds(r *core.Run, want func(pr [2]c11Build) bool) {
 			continue
 		}
 		desc := c11PairName(pr)
-		ex := &xplore.Explorer{Bound: 2, Horizon: 4000, Replay: 2, MaxExecs: 200000, OnDiverge: func(ch []int, a, b string) {
+		ex := &xplore.Explorer{Bound: 2, Horizon: 4000, Replay: 2, MaxExecs: 200000, Deadline: time.Now().Add(exploreBudget(r.Quick())), OnDiverge: func(ch []int, a, b string) {
 			r.InternalError(fmt.Sprintf("C11 concurrent: nondeterministic replay %s %v: %q vs %q", desc, ch, a, b))
 		}}
 		gen.WithWidth(2, func() {
